@@ -1,0 +1,32 @@
+//go:build verif
+
+package inmem
+
+import "github.com/acquirecloud/golibs/kvs"
+
+// VerifWaiters returns, under the store's lock, the number of parked waiters per key as the
+// waiter table records them (nil if s is not an in-memory store).
+func VerifWaiters(s kvs.Storage) map[string]int {
+	svc, ok := s.(*service)
+	if !ok {
+		return nil
+	}
+	svc.lock.Lock()
+	defer svc.lock.Unlock()
+	res := make(map[string]int, len(svc.verChange))
+	for k, w := range svc.verChange {
+		res[k] = w.waiters
+	}
+	return res
+}
+
+// VerifRecords returns the number of records physically kept (expired or not) under the lock.
+func VerifRecords(s kvs.Storage) int {
+	svc, ok := s.(*service)
+	if !ok {
+		return -1
+	}
+	svc.lock.Lock()
+	defer svc.lock.Unlock()
+	return len(svc.recs)
+}
